@@ -1,1 +1,2 @@
 pub mod link;
+pub mod transport;
